@@ -66,6 +66,19 @@ for root in sys.argv[1:]:
             }
             json.dump(meta, open(os.path.join(out, 'meta.json'), 'w'), indent=1)
             rows.append((sid, first[:110], ', '.join(f"{r['check']} ({'/'.join(r['rules'][:2])})" for r in ran if r['exit'] == 1) or '**not caught**', ', '.join(r['check'] for r in ran if r['exit'] == 0)))
+lines = ['# Seeded property-breaking changes', '',
+         'Each directory holds one change to scrayosnet/passage that breaks one of the given properties while the project still',
+         'compiles and its 77 pinned tests still pass: `patch.diff` (apply with `git -C /repo apply`), `demo.diff` + `demo_cmd.txt`',
+         '(a demonstration that passes without the patch and fails with it), `notes.md` (what it needs in order to manifest, written by',
+         'the sub-agent that produced it from the property text alone) and `meta.json` (confirmation and which checks caught it).',
+         'None of them is ever committed to /repo. The table is written by `tools/assemble_seeded.py` from the sweep results',
+         '(`tools/sweep_mutants.sh`: quick tier of the property\'s own check and its neighbours).', '',
+         '| seeded change | what it does | caught by (rules) | ran clean |', '|---|---|---|---|']
+for r in rows:
+    lines.append('| ' + ' | '.join(r) + ' |')
+own = sum(1 for r in rows if r[0].split('-')[0] + ' (' in r[2])
+lines += ['', f'{len(rows)} changes; caught by at least one check: {sum(1 for r in rows if "not caught" not in r[2])}; caught by the check of the property they were written against: {own}.']
+open(os.path.join(HERE, 'seeded', 'README.md'), 'w').write('\n'.join(lines) + '\n')
 print('| seeded change | what it does | caught by (rules) | ran clean |')
 print('|---|---|---|---|')
 for r in rows:
